@@ -1,10 +1,14 @@
 package http2
 
-import "github.com/valyala/fasthttp"
+import (
+	"io"
+
+	"github.com/valyala/fasthttp"
+)
 
 // requestStream hands over a request whose body is a stream of the given
 // declared size.
-func (cl *vClient) requestStream(path string, rd *vScriptReader, size int) *vCall {
+func (cl *vClient) requestStream(path string, rd io.Reader, size int) *vCall {
 	req, res := &fasthttp.Request{}, &fasthttp.Response{}
 	req.Header.SetMethod("POST")
 	req.URI().SetHost("h")
